@@ -173,6 +173,17 @@ func (fg *FnGen) atCallAsserts(name string, args []*Val, pos token.Pos) {
 		fg.set(comp, v.one())
 	}
 	for i, ac := range fg.c.AtCalls {
+		if ac.Kind != "assume" || !matchCallee(ac.Callee, name) {
+			continue
+		}
+		fg.acMatched[i] = true
+		env := fg.env(fg.cur, fg.entry, nil)
+		fg.bindCallArgs(env, args)
+		env.atBlock = fg.curBlock
+		fg.assume(fg.evalBool(ac.Clause.Expr, env))
+		fg.note("ASSUMED (environment invariant at a call, not checked) in " + fg.key + " at call " + name + ": " + ac.Clause.Src)
+	}
+	for i, ac := range fg.c.AtCalls {
 		if ac.Kind != "assert" || !matchCallee(ac.Callee, name) {
 			continue
 		}
